@@ -182,9 +182,11 @@ Theorem C10_stream_read_fault : forall (HO : hops) (r : reader HO) len k kind,
 Proof. exact read_exact_sync_fault. Qed.
 Print Assumptions C10_stream_read_fault.
 
-(* the same for iroh-io's read_bytes_exact, and for tokio's read_exact on schedules without Interrupted *)
+(* the same for iroh-io's read_bytes_exact (tokio take(len).read_to_end) and for tokio's read_exact, both on
+   schedules without Interrupted: neither retries an Interrupted of the transport *)
 Theorem C10_stream_read_fault_tokio_bytes : forall (HO : hops) (r : reader HO) len k kind,
   rd_fail HO r = Some (k, kind) -> kind <> KInterrupted -> rd_calls HO r <= k ->
+  (forall e, In e (rd_sched HO r) -> e <> EIntr) ->
   exists x r', tokio_read_bytes_exact HO r len = (x, r') /\
     ((x = Err kind /\ rd_calls HO r' = k + 1) \/
      (rd_calls HO r' <= k /\
@@ -237,7 +239,8 @@ Print Assumptions C10_decoder_read_fault.
 From BaoV Require Import Model.Fsm Proofs.ObCreate Proofs.GapC10Read Proofs.GapC10Source.
 
 (* ---- a reader whose k-th call fails, under the whole runs ---- *)
-(* the fsm twin of C10_decoder_read_fault (parents: tokio read_exact, so no Interrupted in the schedule) *)
+(* the fsm twin of C10_decoder_read_fault (parents: tokio read_exact, leaves: tokio take(len).read_to_end; neither
+   retries an Interrupted, so no Interrupted in the schedule) *)
 Theorem C10_decoder_read_fault_fsm : forall (HO : hops) (st : rstate_r HO) k kind c iter',
   response_next (rr_iter HO st) = Some (c, iter') ->
   rd_fail HO (rr_rd HO st) = Some (k, kind) -> kind <> KInterrupted -> rd_calls HO (rr_rd HO st) = k ->
